@@ -522,6 +522,13 @@ func (s *Sim) proposerNode(up []*Node) *Node {
 	return up[s.D.Int(0, len(up)-1, "node")]
 }
 
+// FineStep is fineStep for scripted scenarios.
+func (s *Sim) FineStep(n *Node) {
+	if s.hasWork(n) {
+		s.fineStep(n)
+	}
+}
+
 // fineStep performs one sub-step of n's pending work.
 func (s *Sim) fineStep(n *Node) {
 	d := s.D
@@ -1003,3 +1010,37 @@ func (s *Sim) StallThroughElection(p *Profile, f *Node) {
 		f.SlowAppend = false
 	}
 }
+
+// DefaultNodeOpts is a plain configuration for scripted scenarios.
+func DefaultNodeOpts() NodeOpts {
+	return NodeOpts{ElectionTick: 4, HeartbeatTick: 1, Timeout: 4, MaxSizePerMsg: math.MaxUint64, MaxCommittedSizePerReady: math.MaxUint64,
+		MaxInflightMsgs: 16, SnapMode: SnapFresh}
+}
+
+// RunScript builds a world and runs a scripted schedule with the monitors of
+// the given owned properties; it returns the first violation (or nil).
+func RunScript(w WorldOpts, owned []string, exclude map[string]bool, script func(s *Sim)) (res CaseResult) {
+	mon := NewMonitors(nil, owned)
+	s := NewSim(FixedDrawer{}, w, mon)
+	s.Exclude = exclude
+	defer func() {
+		res.Sim = s
+		if r := recover(); r != nil {
+			switch v := r.(type) {
+			case *Violation:
+				res.Violation = v
+			case endCase:
+				res.Excluded = v.reason == "excluded_known_finding"
+				res.Aborted = !res.Excluded
+			default:
+				panic(r)
+			}
+		}
+	}()
+	s.Boot()
+	script(s)
+	return res
+}
+
+// Leader returns the current leader node (nil if none).
+func (s *Sim) Leader() *Node { return s.leaderNode() }
